@@ -171,9 +171,62 @@ def dispatch_formats(fi, var="file_format", typevar="graph_type"):
     return out
 
 
+EXPECTED_FORMATS = {("dimacs", "any"), ("dot", "any"), ("gml", "any"), ("kthlist", "bip"), ("kthlist", "nonbip"), ("matrix", "any")}
+
+
+def semantic_write_dispatch(prog):
+    """fold writeGraph for every (graph type, file format) pair over recording stand-ins for the six writers: each pair must reach the
+    writer of its format (the bipartite kthlist writer exactly for bipartite graphs), an unknown format must raise RuntimeError"""
+    import types
+    from ..fold import Folder, Raised
+    from ..ql import Unknown
+    fi = prog.func(MOD, "writeGraph")
+    want = {"kthlist": None, "dimacs": "_write_graph_dimacs_format", "matrix": "_write_graph_matrix_format", "dot": "write_dot", "gml": "write_gml"}
+    n = 0
+    for gtype in ("simple", "digraph", "dag", "bipartite"):
+        for fmt in ("kthlist", "dimacs", "matrix", "dot", "gml", "bogus"):
+            calls = []
+
+            def rec(name):
+                return lambda *a, **k: calls.append(name)
+            g = {k: rec(k) for k in ("_write_graph_kthlist_nonbipartite", "_write_graph_kthlist_bipartite", "_write_graph_dimacs_format",
+                                     "_write_graph_matrix_format")}
+            g["_process_graph_io_arguments"] = lambda iofile, graph_type, file_format, multi: (graph_type, file_format)
+            g["networkx"] = types.SimpleNamespace(nx_pydot=types.SimpleNamespace(write_dot=rec("write_dot")), write_gml=rec("write_gml"))
+            g["io"] = types.SimpleNamespace(BytesIO=lambda: types.SimpleNamespace(getvalue=lambda: b""))
+            g["print"] = lambda *a, **k: None
+            G = types.SimpleNamespace(to_networkx=lambda: "nx")
+            g["BaseGraph"] = types.SimpleNamespace     # (the entry check `isinstance(G, BaseGraph)` accepts the stand-in)
+            f = Folder(env={}, fuel=20000)
+            f.globals = g
+            try:
+                f.call_function(fi.node, [G, types.SimpleNamespace(write=lambda t: None), gtype, fmt], {})
+                got = list(calls)
+            except Raised as r:
+                got = "raises " + r.cls.split("(")[0]
+            except Unknown as e:
+                return None, "cannot fold writeGraph: %s" % e
+            exp = ["_write_graph_kthlist_bipartite" if gtype == "bipartite" else "_write_graph_kthlist_nonbipartite"] if fmt == "kthlist" else \
+                ([want[fmt]] if fmt in want else "raises RuntimeError")
+            if got != exp:
+                return False, "writeGraph(G, file, %r, %r) reaches %s; the format's writer is %s" % (gtype, fmt, got, exp)
+            n += 1
+    return True, "%d (graph type, format) pairs folded: each reaches the writer of its format, an unknown format is an internal error" % n
+
+
 def check_format_table(R, prog):
     rd, wr = prog.func(MOD, "readGraph"), prog.func(MOD, "writeGraph")
     r, w = dispatch_formats(rd), dispatch_formats(wr)
+    if r != w and r == EXPECTED_FORMATS:
+        sem = semantic_write_dispatch(prog)
+        if sem[0] is True:
+            R.ok("FORMAT-TABLE", "writeGraph: %s" % sem[1], wr.key)
+            R.unknown("FORMAT-TABLE", "writeGraph dispatch", wr.key,
+                      "shape not recognised (no comparison chain on the format); the meaning of the fragment was confirmed by folding: " + sem[1])
+            w = r
+        elif sem[0] is False:
+            R.bad(F("FORMAT-TABLE", wr, "writeGraph dispatch", sem[1]))
+            w = r
     if r == w:
         R.ok("FORMAT-TABLE", "readGraph and writeGraph have branches for the same (format, side) pairs: %s" % sorted(r), rd.key)
     else:
